@@ -482,11 +482,58 @@ def r20c(ctx, P):
     ctx.floor(rid, n, 1, "definition of the per-segment rank limit under `explain`")
 
 
+def r20d(ctx, P):
+    rid = "R20.d"
+    from sa.prog import influence
+    ctx.rule(rid, "FLOW (scores do not depend on explain): whether a hit's score is computed at all must not be decided by `explain`. In "
+                  "search_segment the choice of ScoreMode (Score vs MatchOnly) and in scan_segment the choice between the evaluated "
+                  "score and the default score are controlled by tests that `explain` does not influence (data slice plus controlling "
+                  "tests). Otherwise a request sorted by a field only returns score 0 without explain and the BM25 / function score "
+                  "with it")
+    n = 0
+    for name in ("search_segment", "scan_segment"):
+        f = P.fn(N.READER + "::" + name)
+        if not ctx.anchor(rid, f, "IndexReader::" + name):
+            continue
+        ctx.saw(f)
+        sl = Slice(f)
+        expl_params = [i for i in range(1, f.arg_count + 1) if (f.locals[i].get("name") or "") == "explain"]
+        sites = []
+        for b, i, st in f.stmts():
+            if st["k"] != "assign":
+                continue
+            rv = st["rv"]
+            if rv["k"] == "agg" and (rv.get("adt") or "").endswith("ScoreMode"):
+                sites.append((b, i, "the choice of ScoreMode::%s" % rv.get("variant")))
+            if (f.locals[st["dst"]["l"]].get("name") or "") == "computed_score" and not st["dst"]["p"]:
+                sites.append((b, i, "the value of computed_score"))
+        for b, t in f.calls():
+            if (f.locals[t["dst"]["l"]].get("name") or "") == "computed_score":
+                sites.append((b, TERM, "the value of computed_score"))
+        bad = []
+        for b, i, what in sites:
+            n += 1
+            for (a, succ) in f.control_deps_transitive(b):
+                ta = f.blocks[a]["term"]
+                if ta["k"] != "switch" or any("QuestionMark" in m or "ForLoop" in m for m in (ta.get("macros") or [])):
+                    continue
+                inf = influence(f, ta["on"])
+                if "explain" in inf["fields"] or (set(expl_params) & inf["args"]):
+                    bad.append((Site(f, b, i), what, Site(f, a)))
+        ctx.ob(rid, "%s:%s:score-independent-of-explain" % (rid, name), not bad,
+               "whether scores are computed in %s does not depend on explain" % name if not bad else
+               "%s at %s is selected by a test on `explain` (%s): hits of a field-sorted request have score 0 without explain and a "
+               "computed score with it (repro/C20/field_sort_scores.rs)" % (bad[0][1], bad[0][0].loc(), bad[0][2].loc()),
+               bad[0][0].loc() if bad else "%s:%s" % (f.file, f.line))
+    ctx.floor(rid, n, 3, "score-mode / computed-score selection sites")
+
+
 def run(ctx, progs):
     P = progs.get("default")
     r20a(ctx, P)
     r20b(ctx, P)
     r20c(ctx, P)
+    r20d(ctx, P)
     if ctx.tier == "thorough":
         ctx.config = "features"
         Pf = progs.get("features")
